@@ -70,6 +70,24 @@ def luaToRespL : List LuaVal → List Resp
 end
 
 
+/-- the integer part of the magnitude of a normal binary64 with biased exponent `E` and fraction `M` -/
+def f64Mag (E M : Nat) : Nat :=
+  if E ≥ 1075 then (2 ^ 52 + M) * 2 ^ (E - 1075) else (2 ^ 52 + M) / 2 ^ (1075 - E)
+
+/-- `n as i64` for a Lua float given by its IEEE-754 binary64 bit pattern (`lua_to_resp` on
+    `LuaValue::Number`): the fraction is dropped (truncation toward zero), the result saturates at the
+    ends of `i64`, NaN becomes 0 -/
+def f64ToI64 (bits : Nat) : Int :=
+  if (bits / 2 ^ 52) % 2048 == 2047 then
+    if bits % 2 ^ 52 != 0 then 0 else if (bits / 2 ^ 63) % 2 == 1 then -9223372036854775808 else 9223372036854775807
+  else if (bits / 2 ^ 52) % 2048 == 0 then 0
+  else if (bits / 2 ^ 63) % 2 == 1 then
+    (if f64Mag ((bits / 2 ^ 52) % 2048) (bits % 2 ^ 52) ≥ 9223372036854775808 then -9223372036854775808
+     else - (f64Mag ((bits / 2 ^ 52) % 2048) (bits % 2 ^ 52) : Int))
+  else
+    (if f64Mag ((bits / 2 ^ 52) % 2048) (bits % 2 ^ 52) ≥ 9223372036854775807 then 9223372036854775807
+     else (f64Mag ((bits / 2 ^ 52) % 2048) (bits % 2 ^ 52) : Int))
+
 /-- decimal text of an integer (`i64::to_string`; also `f64::to_string` of an integral float below 2^53) -/
 def intText (i : Int) : Bytes := s2b (toString i)
 
